@@ -215,8 +215,12 @@ func c17GenSession(r *rand.Rand, kind string, n int, big bool) c17Session {
 					ops = append(ops, map[string]interface{}{"op": "addE", "g": gc, "es": []interface{}{c17E(fmt.Sprintf("e%d", i), "rel", fmt.Sprintf("v%d", i), fmt.Sprintf("v%d", i+1), c17Data(r))}})
 				case x < 8:
 					// schema upload: stored as graph <g>__schema__ (vertices S0,S1)
-					ops = append(ops, map[string]interface{}{"op": "schema", "g": gc, "vs": []interface{}{
-						c17V("S0", "SL", c17Data(r)), c17V("S1", "SL", c17Data(r))}})
+					// (in any order, read back by several overlapping readers)
+					vs := []interface{}{}
+					for _, i := range r.Perm(4) {
+						vs = append(vs, c17V(fmt.Sprintf("S%d", i), "SL", c17Data(r)))
+					}
+					ops = append(ops, map[string]interface{}{"op": "schema", "g": gc, "vs": vs, "readers": 4})
 				case x < 9:
 					ops = append(ops, map[string]interface{}{"op": "delGraph", "g": gc}, map[string]interface{}{"op": "addGraph", "g": gc})
 				case x < 10:
@@ -848,10 +852,36 @@ func c17Apply(cli c17Cli, op map[string]interface{}, obs *c17Obs) bool {
 		if cli.AddSchema(sch) != nil {
 			return false
 		}
-		if got, err := cli.GetSchema(g); err == nil {
-			for _, v := range got.Vertices {
-				obs.add(g+"__schema__", c17VOut(v), false)
+		read := func() {
+			if got, err := cli.GetSchema(g); err == nil {
+				for _, v := range got.Vertices {
+					obs.add(g+"__schema__", c17VOut(v), false)
+				}
 			}
+		}
+		// "readers": k overlapping readers of the schema that was just uploaded (the first reads of
+		// a freshly cached object), three rounds each
+		k := 0
+		switch n := op["readers"].(type) {
+		case float64:
+			k = int(n)
+		case int:
+			k = n
+		}
+		if k > 1 {
+			var wg sync.WaitGroup
+			for i := 0; i < k; i++ {
+				wg.Add(1)
+				go func() {
+					defer wg.Done()
+					for j := 0; j < 3; j++ {
+						read()
+					}
+				}()
+			}
+			wg.Wait()
+		} else {
+			read()
 		}
 		return true
 	case "job":
